@@ -251,8 +251,14 @@ pub fn subjects(progs: &[Program], rep: &mut Report) -> Vec<Subject> {
             // reference: each file read alone on a fresh reader must equal the model
             match guard(|| prog::read_all(&archive, &[0])) {
                 Ok(Ok(got)) if prog::diff_model(&model, &got).is_none() => {}
-                _ => {
-                    rep.notes.push(format!("subject {} / {}: files read alone do not match the model (see C01); skipped", p.short(), l.tag()));
+                other => {
+                    // without its reference the subject cannot be explored: reported, never skipped silently
+                    rep.violate(Violation {
+                        sig: json!({"kind": "subject_files_do_not_read_alone", "layers": l.tag()}),
+                        detail: format!("subject {} / {}: the files read one by one on a fresh reader do not match what was written ({})", p.short(), l.tag(), match other { Ok(Ok(_)) => "content differs".to_string(), Ok(Err(e)) => e, Err(pn) => format!("panic: {}", pn.sig()) }),
+                        replay: json!({"program": p.json(), "cfg": cfg.json(), "history": []}),
+                        weight: 0,
+                    });
                     continue;
                 }
             }
